@@ -19,9 +19,27 @@ def fullCodec : Codec Bytes :=
     encode := fun b => some b
     len := fun b => b.length - 1 }
 
+/-- the cEMI model's view of `APCI.from_knx` / `to_knx` / `calculated_length`, with service objects as payload -/
+def apciCodec : Codec APCI.Service :=
+  { decode := fun b => match APCI.decodeAPDU b with
+      | .ok s => .ok s
+      | .error .conv => .error .conv
+      | .error .unsupported => .error .unsup
+    encode := APCI.encodeAPDU
+    len := fun s => (APCI.calcLength s).getD 0 }
+
 -- DRIVER: cemifull => XknxVerif.CEMIFull.handle
-/-- `parse <rawhex>` → rendered frame | `parse` | `unsupported` -/
+/-- `parse <rawhex>` → rendered frame | `parse` | `unsupported`
+`reser <rawhex>` → `ok <hex>` (parse with the APCI model, serialise the decoded service again) | error class -/
 def handle : List String → String
+  | ["reser", h] =>
+    match bytesOfHex? h with
+    | some raw => match Frame.fromKnx apciCodec raw with
+      | .error e => e.render
+      | .ok f => match Frame.toKnx apciCodec f with
+        | .ok bs => s!"ok {hexOfBytes bs}"
+        | .error e => e.render
+    | none => "bad-op"
   | ["parse", h] =>
     match bytesOfHex? h with
     | some raw => match Frame.fromKnx fullCodec raw with
